@@ -18,6 +18,9 @@
                      invocation of that callback makes these calls (start pause resume stop reset) on the root,
                      synchronously, from inside the callback; each result is reported as `P e ret <b>`
   adv <k>            clock += 100k ms        pass   nothing
+  advr <ms>          clock += ms (raw, ≤ 2^43)      passes <k>   k loop passes (≤ 200000), one snapshot at the end
+  advdo <ms> <call>… a LATE pass: the clock moves by ms AFTER the timer phase, then the control calls (Late.lean `stepLate`)
+                     leaves Zr<ms> (SleepAction of exactly ms), suffix @r<ms> (setTimeout(ms)), rep:<n> with n < 2^64
   cfg <abcd>         (debug) select the unrepaired code: a=fixPar b=fixReplay c=fixFin d=fixBlk, each 0/1
 
 After every op the rest of the loop pass runs (queued tasks) and the timer phase of the next pass.
@@ -30,18 +33,30 @@ import TboxModel.C17.Spec
 import TboxModel.C17.Inv
 import TboxModel.C17.Exec
 import TboxModel.C17.Reent
+import TboxModel.C17.Late
 open Tbox.Util Tbox.C17
 
 def mode3? : String → Option Mode3
   | "all" => some .all | "anyf" => some .anyFail | "anys" => some .anySucc | _ => none
 
-def splitTmo (tok : String) : Option (String × Option Nat) :=
+/-- raw durations / clock steps in ms are bounded by 2^43 (the code keeps time points as int64 nanoseconds) -/
+def rawMax : Nat := 2 ^ 43
+
+/-- `@<k>` (k ≤ 50): 100k + 2·id + 2 ms;  `@r<ms>` (ms ≤ 2^43): exactly ms.  Result: (base, (raw?, number)) -/
+def splitTmo (tok : String) : Option (String × Option (Bool × Nat)) :=
   match tok.splitOn "@" with
   | [b] => some (b, none)
-  | [b, k] => match k.toNat? with
-      | some k => if k ≤ 50 then some (b, some k) else none
+  | [b, k] =>
+      if k.startsWith "r" then
+        match (k.drop 1).toString.toNat? with
+        | some ms => if ms ≤ rawMax then some (b, some (true, ms)) else none
+        | none => none
+      else match k.toNat? with
+      | some k => if k ≤ 50 then some (b, some (false, k)) else none
       | none => none
   | _ => none
+
+def tmoMs (id : Nat) (x : Bool × Nat) : Nat := if x.1 then x.2 else 100 * x.2 + 2 * id + 2
 
 def leafKind (b : String) (id : Nat) : Option Kind :=
   match b.splitOn ":" with
@@ -51,7 +66,11 @@ def leafKind (b : String) (id : Nat) : Option Kind :=
   | ["Ff", t] => match t.toNat? with | some t => if t ≤ 20 then some (.func false (some t)) else none | none => none
   | ["D"] => some .dummy
   | [z] =>
-      if z.startsWith "Z" then
+      if z.startsWith "Zr" then
+        match (z.drop 2).toString.toNat? with
+        | some ms => if ms ≤ rawMax then some (.sleep ms) else none
+        | none => none
+      else if z.startsWith "Z" then
         match (z.drop 1).toString.toNat? with
         | some k => if k ≤ 50 then some (.sleep (100 * k + 2 * id + 1)) else none
         | none => none
@@ -76,7 +95,7 @@ def headKind (b : String) : Option Kind :=
   | ["rep", n, m] =>
       match n.toNat? with
       | some n =>
-        if n > 1000 then none else
+        if n ≥ 2 ^ 64 then none else      -- RepeatAction(size_t times)
         match m with
         | "nb" => some (.repeat_ n .noBreak) | "bf" => some (.repeat_ n .breakFail) | "bs" => some (.repeat_ n .breakSucc)
         | _ => none
@@ -119,7 +138,7 @@ partial def parseNode (toks : List String) (id : Nat) (depth : Nat) : Option (T 
           | none => none
           | some (cs, rest', nid) =>
             if arityOk k cs.length then
-              some (.node { id := id, kind := k, tmo := tmo.map (fun x => 100 * x + 2 * id + 2) } (listToTL cs), rest', nid)
+              some (.node { id := id, kind := k, tmo := tmo.map (tmoMs id) } (listToTL cs), rest', nid)
             else none
   | ")" :: _ => none
   | tok :: rest =>
@@ -128,7 +147,7 @@ partial def parseNode (toks : List String) (id : Nat) (depth : Nat) : Option (T 
       | some (b, tmo) =>
         match leafKind b id with
         | none => none
-        | some k => some (.node { id := id, kind := k, tmo := tmo.map (fun x => 100 * x + 2 * id + 2) } .nil, rest, id + 1)
+        | some k => some (.node { id := id, kind := k, tmo := tmo.map (tmoMs id) } .nil, rest, id + 1)
 partial def parseChildren (toks : List String) (id : Nat) (depth : Nat) (acc : List T) : Option (List T × List String × Nat) :=
   match toks with
   | ")" :: rest => some (acc.reverse, rest, id)
@@ -372,6 +391,7 @@ def stepLine (ds : DS) (line : String) : DS × List String :=
         | "do", _ :: _ => (args.mapM (parseCall n)).map (fun c => .op (.calls c))
         | "defer", _ :: _ => (args.mapM (parseCall n)).map (fun c => .op (.defer c))
         | "adv", [k] => match k.toNat? with | some k => if k ≤ 100 then some (.op (.adv (100 * k))) else none | none => none
+        | "advr", [k] => match k.toNat? with | some k => if k ≤ rawMax then some (.op (.adv k)) else none | none => none
         | "pass", [] => some (.op .pass)
         | "cb", which :: (c1 :: cs) =>
             if (c1 :: cs).length > 6 then none else
@@ -396,6 +416,20 @@ def stepLine (ds : DS) (line : String) : DS × List String :=
         | "settle", [] => some ds.free
         | "settle", _ => some false
         | _, _ => none
+      -- a late pass: `advdo <ms> <call>…`
+      let late? : Option (Option (Nat × List Call)) :=
+        match opw, args with
+        | "advdo", k :: (c1 :: cs) =>
+            match k.toNat?, (c1 :: cs).mapM (parseCall n) with
+            | some k, some l => if k ≤ rawMax then some (some (k, l)) else some none
+            | _, _ => some none
+        | "advdo", _ => some none
+        | _, _ => none
+      let opr? : Option OpR := match late? with
+        | some (some (_, l)) => some (.op (.calls l))
+        | some none => none
+        | none => opr?
+      let lateMs : Nat := match late? with | some (some (k, _)) => k | _ => 0
       match icb? with
       | some false => (ds, ["bad-op"])
       | some true => ({ ds with free := true, plain := false }, ["B free-mode", "P free"])
@@ -406,7 +440,7 @@ def stepLine (ds : DS) (line : String) : DS × List String :=
         if ds.free then (ds, ["B free-mode", "P free"]) else
         let ds := { ds with scripted := ds.scripted || (match opr with | .cb _ _ => true | _ => false) }
         let op : Op := match opr with | .op o => o | .cb _ _ => .pass
-        let g0 := { ds.g with log := [] }
+        let g0 := { ds.g with log := [], now := ds.g.now + lateMs }      -- (lateMs ≠ 0: `stepLate` / `stepLateR` of Late.lean)
         -- without callback scripts the model of Model.lean runs (the one the theorems of layers 1–3 are about)
         let (t', g', rs) := if ds.scripted then stepR t g0 opr else step t g0 op
         let evs := g'.log.reverse
@@ -415,6 +449,7 @@ def stepLine (ds : DS) (line : String) : DS × List String :=
           | .calls [.start] => !ds.started
           | .adv _ | .pass => true
           | _ => false
+        let isPlainOp := isPlainOp && late?.isNone
         let ds := { ds with plain := ds.plain && isPlainOp,
                             started := ds.started || (match op with | .calls _ | .defer _ => true | _ => false) }
         let (ds, mon) := monitorEvents ds evs t'
@@ -455,4 +490,20 @@ def stepLine (ds : DS) (line : String) : DS × List String :=
          ["B " ++ " ".intercalate tags] ++ spec.filter (·.startsWith "B ") ++ (evs.filter (fun e => !isGhost e)).map (fun e => "P e " ++ showEv e)
            ++ mon ++ spec.filter (·.startsWith "P ") ++ [s!"P r={rstr} s={snapshot t'}"])
 
-def main : IO Unit := runDriver ({} : DS) stepLine
+/-- `passes <k>` (1 ≤ k ≤ 200000): k loop passes, events as they happen, one snapshot at the end -/
+def stepLineX (ds : DS) (line : String) : DS × List String :=
+  match words line with
+  | ["passes", k] =>
+      match k.toNat? with
+      | some k =>
+        if k < 1 || k > 200000 || ds.tree.isNone || ds.xs.isSome then (ds, ["bad-op"]) else
+        if ds.free then (ds, ["B free-mode", "P free"]) else
+        let r := (List.range k).foldl (fun (p : DS × Array String) i =>
+          let (ds', out) := stepLine p.1 "pass"
+          let keep := out.filter fun l => if i + 1 == k then true else !(l.startsWith "P r=") && !(l.startsWith "B ")
+          (ds', p.2 ++ keep.toArray)) (ds, #[])
+        (r.1, ["B passes"] ++ r.2.toList)
+      | none => (ds, ["bad-op"])
+  | _ => stepLine ds line
+
+def main : IO Unit := runDriver ({} : DS) stepLineX
